@@ -308,6 +308,32 @@ def run(ck):
                     zm = b2f(d.ask('ckt zins', f2b(w.r_orig), f2b(c.radius), f2b(c.epsilon_r)))
                     if not close(zm, float(w.zins), 1e-11, 1e-30):
                         why = 'insulation zins of object %d: impl %r model %r' % (w.n, float(w.zins), zm)
+        # distributed loads per pulse vs the model's distImpedance, fed with the implementation's own per-length values
+        # (zint / j w zins of the wire of each half) and conductor lengths of the halves
+        from mininec.mininec import Skin_Effect_Load, Insulation_Load
+        for ld in m.loads:
+            if not isinstance(ld, (Skin_Effect_Load, Insulation_Load)) or why:
+                continue
+            for p in ld.pulses:
+                z = complex(ld.impedance(m.f, p))
+                toks = ['ckt dist', 2]
+                for i, sg in enumerate(p.segs):
+                    g = sg.geobj
+                    if isinstance(ld, Skin_Effect_Load):
+                        has = g.skin_load is not None and g.zint is not None
+                        zz = complex(g.zint) if has else 0j
+                        dv = p.dvecs(i - 0.5)
+                        ln = float(np.linalg.norm(dv[0] - dv[1]))
+                    else:
+                        has = bool(g.coat_load) and g.zins is not None
+                        zz = complex(g.zins * omg * 1j) if has else 0j
+                        ln = float(sg.seg_len) / 2
+                    toks += [1 if has else 0, f2b(zz.real), f2b(zz.imag), f2b(ln)]
+                zm = cxa(d.ask(*toks))[0]
+                ck.count('dist_pulse_ties')
+                if not close(zm, z, 1e-12, 1e-300):
+                    why = '%s on pulse %d: impl %r model %r' % (type(ld).__name__, p.idx + 1, z, zm)
+                    break
         if why:
             dis.append(dict(kind='loaded', gen_seed=gs, why=why, small=(ck.tier == 'quick')))
     # feed-shift evaluator on a small vetted corpus
